@@ -18,7 +18,7 @@ def run(prop, tier, seed, replay):
         exhaustive_spaces=dict(quotient_triples=res["stats"].get("release.class_quotient_343", 0),
                                trees_3path=res["stats"].get("release.class_trees_3path_exhaustive", 0),
                                equality_patterns_covered=res["stats"].get("release.equality_patterns_covered", 0)),
-        rule="reconcile_path: all 343 triples over {absent} + {3 digests} x {File, Symlink} (every equality pattern and type combination), random 32-byte digests from a 4-element pool with a one-bit near miss; reconcile: all 27^3 assignments of {absent, d1, d2} to (a, b, base) on the 3-path universe {a, b/c, b/d} x both trust settings, plus random trees (nested names, symlinks, base-only paths, shuffled insertion). Oracle on the real functions: documented table, mirror symmetry, invariance under an injective renaming of fingerprints, no delete without base, delete only with an equal survivor, tree result = non-Noop table entries over the sorted union. Output compared line by line with the extracted model. distinct_nontrivial = distinct case bodies with at least one side present (paths) / at least one action (trees).",
+        rule="reconcile_path: all 343 triples over {absent} + {3 digests} x {File, Symlink} (every equality pattern and type combination), random 32-byte digests from a 4-element pool with a one-bit near miss; reconcile: all 27^3 assignments of {absent, d1, d2} to (a, b, base) on the 3-path universe {a, b/c, b/d} x both trust settings, plus random trees (nested names, symlinks, base-only paths, shuffled insertion). Oracle on the real functions: documented table, mirror symmetry, invariance under an injective renaming of fingerprints, no delete without base, delete only with an equal survivor, tree result = non-Noop table entries over the sorted union. Output compared line by line with the extracted model. equality_patterns_covered counts the distinct (presence, a=b, a=base, b=base) patterns seen (15 exist). distinct_nontrivial = distinct case bodies with at least one side present (paths) / at least one action (trees).",
         samples=res["samples"] or ["(none)"], distribution=res["stats"], disagreements=res["dis"]))
     v.assumptions = TB
     return v.finish()
